@@ -50,7 +50,7 @@ class _Subst(ast.NodeTransformer):
         return n
 
 
-def _instantiate(helper, args, is_method):
+def _instantiate(helper, args, is_method, taken=frozenset()):
     """helper body with parameters replaced by the call's argument expressions; helper locals renamed"""
     params = [a.arg for a in helper.args.args]
     if is_method and params and params[0] in ('self', 'cls'):
@@ -66,24 +66,42 @@ def _instantiate(helper, args, is_method):
     for n in ast.walk(helper):
         if isinstance(n, ast.Name) and isinstance(n.ctx, ast.Store) and n.id in mapping:
             return None
-    rename = {v: f'{v}__{helper.name.strip("_")}' for v in assigned}
+    # helper locals keep their names unless the calling function already uses them
+    rename = {v: f'{v}__{helper.name.strip("_")}' for v in assigned if v in taken}
     body = [_Subst(mapping, rename).visit(copy.deepcopy(s)) for s in _docless(helper.body)]
     return body
 
 
-def _as_statements(helper, args, is_method):
-    body = _instantiate(helper, args, is_method)
-    if body is None:
-        return None
-    if body and isinstance(body[-1], ast.Return) and body[-1].value is None:
+def _drop_tail_returns(body):
+    """the statements of a helper called for its effects only (result discarded): `return`s in tail position
+    (of a side-effect-free value) are dropped; any other `return` makes the helper non-inlinable (None)"""
+    body = list(body)
+    while body and isinstance(body[-1], ast.Return) and (body[-1].value is None or _pure(body[-1].value)):
         body = body[:-1]
-    if any(isinstance(n, ast.Return) for s in body for n in ast.walk(s)):
+    if body and isinstance(body[-1], ast.If):
+        last = body[-1]
+        b1, b2 = _drop_tail_returns(last.body), _drop_tail_returns(last.orelse)
+        if b1 is None or b2 is None:
+            return None
+        new_if = ast.If(test=last.test, body=b1 or [ast.Pass()], orelse=b2)
+        body = body[:-1] + [ast.copy_location(new_if, last)]
+        head = body[:-1]
+    else:
+        head = body
+    if any(isinstance(n, ast.Return) for s_ in head for n in ast.walk(s_)):
         return None
     return body
 
 
-def _as_expression(helper, args, is_method):
-    body = _instantiate(helper, args, is_method)
+def _as_statements(helper, args, is_method, taken=frozenset()):
+    body = _instantiate(helper, args, is_method, taken)
+    if body is None:
+        return None
+    return _drop_tail_returns(body)
+
+
+def _as_expression(helper, args, is_method, taken=frozenset()):
+    body = _instantiate(helper, args, is_method, taken)
     if not body or not isinstance(body[-1], ast.Return) or body[-1].value is None:
         return None
     env = {}
@@ -99,6 +117,7 @@ class _Inliner(ast.NodeTransformer):
     def __init__(self, helpers, clsname):
         self.helpers, self.clsname = helpers, clsname   # name -> (FunctionDef, is_method)
         self.count = 0
+        self.taken = frozenset()
 
     def _target(self, call):
         f = call.func
@@ -115,7 +134,7 @@ class _Inliner(ast.NodeTransformer):
         if isinstance(node.value, ast.Call):
             tgt = self._target(node.value)
             if tgt is not None:
-                body = _as_statements(tgt[0], list(node.value.args), bool(tgt[1]))
+                body = _as_statements(tgt[0], list(node.value.args), bool(tgt[1]), self.taken)
                 if body is not None:
                     self.count += 1
                     return [self.visit(s) if not isinstance(s, list) else s for s in body] or [ast.Pass()]
@@ -125,7 +144,7 @@ class _Inliner(ast.NodeTransformer):
         node = self.generic_visit(node)
         tgt = self._target(node)
         if tgt is not None:
-            e = _as_expression(tgt[0], list(node.args), bool(tgt[1]))
+            e = _as_expression(tgt[0], list(node.args), bool(tgt[1]), self.taken)
             if e is not None:
                 self.count += 1
                 return e
@@ -161,16 +180,88 @@ def inline_tree(tree, path):
             inl = _Inliner({k: (v[0], (v[1] == 'method') if v[1] else None) for k, v in helpers.items()}, c.name)
             for f in c.body:
                 if isinstance(f, ast.FunctionDef) and f.name not in helpers:
+                    inl.taken = frozenset(n.id for n in ast.walk(f) if isinstance(n, ast.Name)) | frozenset(a.arg for a in f.args.args)
                     f.body = _flatten([inl.visit(s) for s in f.body])
             total += inl.count
         if mod_new:
             inl = _Inliner({k: (v[0], None) for k, v in mod_new.items()}, '')
             for f in tree.body:
                 if isinstance(f, ast.FunctionDef) and f.name not in mod_new:
+                    inl.taken = frozenset(n.id for n in ast.walk(f) if isinstance(n, ast.Name)) | frozenset(a.arg for a in f.args.args)
                     f.body = _flatten([inl.visit(s) for s in f.body])
             total += inl.count
+    # a new helper whose every call was inlined no longer exists as far as the translators are concerned (its
+    # statements are read where they were inlined); one that is still called somewhere stays and is read as it is
+    def still_called(name, is_method):
+        """any remaining reference (call, or the helper passed around as a value) outside its own definition"""
+        for top in ast.walk(tree):
+            if isinstance(top, ast.FunctionDef) and top.name == name:
+                continue
+            if isinstance(top, ast.FunctionDef):
+                for n in ast.walk(top):
+                    if n is top:
+                        continue
+                    if isinstance(n, ast.FunctionDef) and n.name == name:
+                        continue
+                    if is_method and isinstance(n, ast.Attribute) and n.attr == name:
+                        return True
+                    if not is_method and isinstance(n, ast.Name) and n.id == name and isinstance(n.ctx, ast.Load):
+                        return True
+        return False
+    if total:
+        for c in [c for c in tree.body if isinstance(c, ast.ClassDef)]:
+            known = set(pin.get(c.name, []))
+            if c.name in pin:
+                c.body = [f for f in c.body if not (isinstance(f, ast.FunctionDef) and f.name not in known
+                                                    and not still_called(f.name, True))]
+        tree.body = [f for f in tree.body if not (isinstance(f, ast.FunctionDef) and f.name in mod_new
+                                                  and not still_called(f.name, False))]
     ast.fix_missing_locations(tree)
     return tree, total
+
+
+PURE_CALLS = {'len', 'min', 'max', 'zip', 'list', 'tuple', 'range', 'enumerate', 'int', 'float', 'abs'}
+
+
+def _pure(e):
+    for n in ast.walk(e):
+        if isinstance(n, ast.Call):
+            if not (isinstance(n.func, ast.Name) and n.func.id in PURE_CALLS) or n.keywords:
+                return False
+        elif not isinstance(n, (ast.Name, ast.Attribute, ast.Constant, ast.Subscript, ast.BinOp, ast.UnaryOp, ast.Tuple, ast.List,
+                                ast.Load, ast.operator, ast.unaryop, ast.Slice)):
+            return False
+    return True
+
+
+def propagate_locals(fn):
+    """copy of `fn` in which every local that is assigned exactly once, from a side-effect-free expression over
+    names that are themselves never re-assigned, is replaced by that expression (and its assignment dropped)"""
+    fn = copy.deepcopy(fn)
+    stores = {}
+    for n in ast.walk(fn):
+        if isinstance(n, ast.Name) and isinstance(n.ctx, ast.Store):
+            stores[n.id] = stores.get(n.id, 0) + 1
+    env = {}
+
+    def strip(block):
+        out = []
+        for st in block:
+            if isinstance(st, ast.Assign) and len(st.targets) == 1 and isinstance(st.targets[0], ast.Name) \
+                    and stores.get(st.targets[0].id) == 1 and _pure(st.value) \
+                    and all(stores.get(m.id, 0) == 0 or m.id in env for m in ast.walk(st.value) if isinstance(m, ast.Name)):
+                env[st.targets[0].id] = _Subst(dict(env), {}).visit(copy.deepcopy(st.value))
+                continue
+            st = _Subst(dict(env), {}).visit(st)
+            for fld in ('body', 'orelse', 'finalbody'):
+                sub = getattr(st, fld, None)
+                if isinstance(sub, list) and sub and isinstance(sub[0], ast.stmt):
+                    setattr(st, fld, strip(sub))
+            out.append(st)
+        return out
+    fn.body = strip(fn.body)
+    ast.fix_missing_locations(fn)
+    return fn
 
 
 def parse(path):
